@@ -9,6 +9,7 @@
 //!   op 10  ContextualHuffmanEncoder::deserialize + ContextualHuffmanDecoder::decode / decode_xN in the copy
 //!   op 11  ContextualHuffmanEncoder::new (the counting loops): a = order :: contexts by tree index, b = training text
 //!   op 12  ParallelHuffmanEncoder / Decoder object histories
+//!   op 13  AdaptiveParallelEncoder::encode_adaptive, Huffman arms (same evaluator, marker n = 0)
 //! Damaged inputs are restricted to those whose outcome does not depend on HashMap iteration order (errors, or tables that
 //! stay prefix-free); what deserialize does with other inputs is property C15.
 use super::*;
@@ -307,4 +308,27 @@ pub(super) fn par_jobs(cx: &mut Cx, rng: &mut Rng) {
             par_hist_case(cx, *p, cfgs[(k + pi) % cfgs.len()], &ops, false);
         }
     }
+}
+
+/// AdaptiveParallelEncoder::encode_adaptive on a Huffman arm = train(data) + encode(data) on the member object with `streams`
+/// lanes (op 12 with the history [train d; enc d]); `r` = what encode_adaptive returned, `dec` = what the HuffmanDecoder on
+/// from_data(data) answered for it.
+pub(super) fn adaptive_case(cx: &mut Cx, streams: usize, data: &[u8], r: &Result<Vec<u8>, String>, dec: Option<&Result<Vec<u8>, String>>) {
+    let ft = match guarded(|| es(HuffmanTree::from_data(data))) { Ok(Ok(t)) => match flat_table(&table_of(&t)) { Some(f) => f, None => return }, _ => return };
+    // n = 0 marks the adaptive entry point: the model computes the lanes from the size itself
+    let mut a: Vec<u128> = vec![0, 2];
+    for kind in [0u128, 1] {
+        a.push(kind);
+        a.push(data.len() as u128);
+        a.extend(data.iter().map(|&x| x as u128));
+        a.extend(ft.iter().cloned());
+    }
+    let mut expect = vec![streams as u128];
+    expect.extend(lres(r));
+    match (r, dec) {
+        (Ok(_), Some(d)) => expect.extend(lres(d)),
+        (Err(_), _) => expect.extend(lres(&Err(String::new()))),
+        _ => return,
+    }
+    cx.coq(13, a, &[], expect, "AdaptiveParallelEncoder::encode_adaptive (Huffman arm)", false);
 }
